@@ -36,8 +36,9 @@ func (g *customGen[V]) value(t *T) V {
 	return find(g.maybeValue, t, small)
 }
 
-func (g *customGen[V]) maybeValue(t *T) (V, bool) {
-	t = newT(t.tb, t.s, flags.debug, nil)
+func (g *customGen[V]) maybeValue(outer *T) (V, bool) {
+	t := newT(outer.tb, outer.s, flags.debug, nil)
+	defer outer.failIfFailed(t) // after cleanup, as the cleanup functions can signal failures as well
 	defer t.cleanup()
 
 	defer func() {
@@ -45,6 +46,7 @@ func (g *customGen[V]) maybeValue(t *T) (V, bool) {
 			if _, ok := r.(invalidData); !ok {
 				panic(r)
 			}
+			t.failOnError() // skipping does not undo a failure signalled earlier
 		}
 	}()
 
